@@ -428,6 +428,18 @@ def interval_cases(rng, out, n):
                     out.violations.append(dict(what='a slow proposal copied the point on iteration %d (interval %d, duration %r) but reports '
                                                     'log densities %r / %r for that move' % (clock, k, dur, fwd, rev), replay=meta))
                 continue
+            # directly: the Hastings factor from the reported densities against the truncated normals the move was drawn from
+            from scipy import stats as _st
+
+            def tn(x, mu):
+                return sum(_st.norm.logpdf(x[p], mu[p], sd) - math.log(_st.norm.cdf((bnd[p][1] - mu[p]) / sd) - _st.norm.cdf((bnd[p][0] - mu[p]) / sd))
+                           for p, sd in zip(params, stds))
+            want = tn(fromx, res) - tn(res, fromx)
+            if abs((rev - fwd) - want) > 1e-7 * (1 + abs(want)):
+                out.violations.append(dict(
+                    what='a slow %s (interval %d, duration %r) on iteration %d of its clock drew a move but reports log densities %r forward and %r '
+                         'backward: Hastings factor %r, the ratio of the densities the move and its reverse are drawn with is %r'
+                         % (prop.name, k, dur, clock, fwd, rev, rev - fwd, want), replay=meta))
             for (xi, gv, val) in ((res, fromx, fwd), (fromx, res, rev)):
                 terms.append('CBN %s %s %s %s %s %s' % (fl([bnd[p][0] for p in params]), fl([bnd[p][1] for p in params]), fl(stds),
                                                        fl([gv[p] for p in params]), fl([xi[p] for p in params]), core.cfloat(val)))
